@@ -838,6 +838,11 @@ class TrialDataManager(object):
             shg_mgr=shg_mgr,
             pmm=pmm)
 
+        # Increment the trial data state ID in any case, i.e. also if no static
+        # data fields are defined, because the trial data has changed and
+        # caches depending on it need to get invalidated.
+        self._trial_data_state_id += 1
+
     def get_n_values(self):
         """Returns the expected size of the values array after a PDF
         evaluation, which will include PDF values for all trial data events and
